@@ -203,16 +203,20 @@ def redirectMessage (T : Tables) (C : Codec (Sig κ)) (key : κ) (typ value rela
         let sig := Sig.signed key dig octets
         .ok (args2 ++ [(kSignature, C.b64e sig)]) (some ⟨octets, dig, sig⟩)
 
+/-- `sign_alg = sigalg or self.signing_algorithm` -/
+def effAlg (cfgAlg : Str) (sigalg : Option Str) : Str :=
+  match sigalg.filter (· ≠ []) with
+  | some a => a
+  | none => cfgAlg
+
 /-- `Entity.apply_binding(BINDING_HTTP_REDIRECT, msg_str, destination, relay_state, response, sign, sigalg)`:
-    `cfgAlg` = `self.signing_algorithm`, `shouldSign` = truth value of `self.should_sign`. -/
+    `cfgAlg` = `self.signing_algorithm`, `shouldSign` = truth value of `self.should_sign`.
+    The allow-list test comes first, whether or not anything is signed. -/
 def applyBinding (T : Tables) (C : Codec (Sig κ)) (key : κ) (cfgAlg : Str) (shouldSign response : Bool)
     (value relayState : Str) (sign : Option Bool) (sigalg : Option Str) : SignOut κ :=
-  let sign' := sign.getD shouldSign
-  let alg := match sigalg.filter (· ≠ []) with
-    | some a => a
-    | none => cfgAlg
-  if alg ∉ T.allowedEntity then .refused .notAllowedEntity
-  else redirectMessage T C key (if response then kSAMLResponse else kSAMLRequest) value relayState sign' (some alg)
+  if effAlg cfgAlg sigalg ∉ T.allowedEntity then .refused .notAllowedEntity
+  else redirectMessage T C key (if response then kSAMLResponse else kSAMLRequest) value relayState
+    (sign.getD shouldSign) (some (effAlg cfgAlg sigalg))
 
 /-! ### verifier: `verify_redirect_signature` -/
 
